@@ -908,7 +908,14 @@ class Evaluator:
         if b is RAISE:
             s.learn(g, True); return a
         if isinstance(g, Opq) and g.k and g.k[0] == 'not': return s.mkcond(g.k[1], b, a)
-        if isinstance(g, Opq) and g.k and g.k[0] == 'cmp' and g.k[1] == 'NotEq': return Cond(Opq('cmp', 'Eq', *g.k[2:]), b, a)
+        if isinstance(g, Opq) and g.k and g.k[0] == 'cmp' and g.k[1] == 'NotEq': return s.mkcond(Opq('cmp', 'Eq', *g.k[2:]), b, a)
+        if isinstance(g, Opq) and len(g.k) == 3 and g.k[0] == 'cmp' and g.k[1] == 'Eq' and isinstance(g.k[2], Poly) and isinstance(b, Comp) and b.gens \
+                and ((isinstance(a, (list, dict, tuple)) and not a) or (isinstance(a, Opq) and a.k == ('set',))):
+            # xs empty ? <empty container> : [f(x) for x in xs ...]   is the comprehension (over nothing it is the empty container anyway)
+            lc_ = _len_vs_const(g.k[2])
+            if lc_ is not None and lc_[2] == 0 and isinstance(lc_[1], tuple) and lc_[1][:1] == ('len',) and len(lc_[1]) == 2 and lc_[1][1] == tkey(_iter_view(b.gens[0][0])) \
+                    and {list: 'list', dict: 'dict', tuple: 'list'}.get(type(a), 'set') == ('list' if b.kind == 'gen' else b.kind):
+                return b
         # decision-tree normal form: (g1 and g2) ? a : b  ==  g1 ? (g2 ? a : b) : b ;  (g1 or g2) ? a : b == g1 ? a : (g2 ? a : b)
         if isinstance(g, Opq) and g.k and g.k[0] == 'and':
             rest = g.k[2] if len(g.k) == 3 else Opq('and', *g.k[2:])
@@ -1267,6 +1274,11 @@ class Evaluator:
         if isinstance(v, Poly) and v.as_atom() is not None:
             st = s.stores.get((v.as_atom(), attr))
             if st is not None: return st
+            if s.__dict__.get('obj_classes') and v.as_atom() in s.obj_classes and depth < s.depth_limit:
+                om_, oc_ = s.obj_classes[v.as_atom()]
+                mem_ = s.prog.find_member(om_, oc_, attr)
+                if mem_ and isinstance(mem_[1], ast.FunctionDef) and s.prog.is_property(mem_[1]):
+                    return s.call_fn(mem_[1], mem_[0], [v], {}, {'__parent__': None}, depth + 1)
             if s.self_class is not None and v.as_atom() == s.self_atom and attr.startswith('_') and not attr.startswith('__') and depth < s.depth_limit:
                 # private helper PROPERTY of the class under analysis: unfolded like its private methods
                 mem_ = s.prog.find_member(s.self_class[0], s.self_class[1], attr)
@@ -1393,6 +1405,8 @@ class Evaluator:
             else:
                 if k.arg in kw and s._try_depth > 0: raise Raised('TypeError', f"got multiple values for keyword argument {k.arg!r}")
                 kw[k.arg] = s.ev(k.value, env, mod, depth)
+        if any(x_ is RAISE for x_ in args) or any(x_ is RAISE for x_ in kw.values()) or (isinstance(f, ast.Attribute) and recv is RAISE):
+            return RAISE          # an argument that raises: the call itself is never made
         if isinstance(f, ast.Attribute):
             return s.call_method(recv, f.attr, args, kw, mod, depth, e)
         return s.apply(fv, args, kw, mod, depth, e)
@@ -1552,6 +1566,13 @@ class Evaluator:
         if s.atom_methods and isinstance(recv, Poly) and (recv.as_atom(), attr) in s.atom_methods and depth < s.depth_limit:
             mm_, fn_ = s.atom_methods[(recv.as_atom(), attr)]
             return s.call_fn(fn_, mm_, [recv] + list(args), kw, {'__parent__': None}, depth + 1)
+        if isinstance(recv, Poly) and s.__dict__.get('obj_classes') and recv.as_atom() in s.obj_classes and depth < s.depth_limit:
+            om_, oc_ = s.obj_classes[recv.as_atom()]
+            mem_ = s.prog.find_member(om_, oc_, attr)
+            if mem_ and isinstance(mem_[1], ast.FunctionDef) and not s.prog.is_property(mem_[1]):
+                decs_ = s.prog.decorators(mem_[1])
+                first_ = [] if 'staticmethod' in decs_ else ([Ref('class', om_, oc_, oc_.name)] if 'classmethod' in decs_ else [recv])
+                return s.call_fn(mem_[1], mem_[0], first_ + list(args), kw, {'__parent__': None}, depth + 1)
         if isinstance(recv, Poly) and recv.as_atom() is not None and depth < s.depth_limit:
             um_ = s.unique_private_member(attr)
             if um_ is not None and isinstance(um_[1], ast.FunctionDef) and not s.prog.is_property(um_[1]) and not any(d_ in ('staticmethod', 'classmethod') or 'abstractmethod' in d_ for d_ in s.prog.decorators(um_[1])):
@@ -1617,6 +1638,11 @@ class Evaluator:
     def apply(s, fv, args, kw, mod, depth, node=None):
         if isinstance(fv, Cond):
             return Cond(fv.g, s.apply(fv.a, args, kw, mod, depth, node), s.apply(fv.b, args, kw, mod, depth, node))
+        for i_, a_ in enumerate(args):
+            if isinstance(a_, Cond) and all(isinstance(l_, (Ref, Closure)) for _, l_ in paths_of(a_)) and isinstance(fv, (Closure, Ref)) and not (isinstance(fv, Ref) and fv.kind in ('builtin', 'npfun', 'ext')):
+                # f(A if c else B, ...) with a class / function chosen by a test: the call of each alternative
+                alt = lambda x_: s.apply(fv, list(args[:i_]) + [x_] + list(args[i_ + 1:]), kw, mod, depth, node)
+                return Cond(a_.g, alt(a_.a), alt(a_.b))
         at_ = fv.as_atom() if isinstance(fv, Poly) else None
         if isinstance(at_, tuple) and len(at_) == 3 and at_[0] == '.' and isinstance(at_[2], str) and (isinstance(at_[1], str) or isinstance(at_[1], tuple)):
             # a bound method taken as a value (f = obj.method; f(x)) is the method call obj.method(x)
@@ -1736,7 +1762,8 @@ class Evaluator:
         if init and isinstance(init[1], ast.FunctionDef) and depth < s.depth_limit:
             # run __init__ on a fresh atom so that attribute stores are merged path-sensitively, then collect them into a record
             tag = ('obj', cls.name, next(Evaluator._objcount))
-            s.call_fn(init[1], init[0], [Poly.atom(tag)] + list(args), kw, {'__parent__': None}, depth + 1)
+            s.__dict__.setdefault('obj_classes', {})[tag] = (m, cls)          # methods called on the object while it is being initialised are its class's
+            if s.call_fn(init[1], init[0], [Poly.atom(tag)] + list(args), kw, {'__parent__': None}, depth + 1) is RAISE: return RAISE
             fields = {k[1]: v for k, v in s.stores.items() if k[0] == tag and isinstance(k[1], str)}
             return Rec(cls.name, fields, (m, cls))
         return Rec(cls.name, dict(kw, **{f'#{i}': a for i, a in enumerate(args)}), (m, cls))
@@ -1817,6 +1844,16 @@ class Evaluator:
             a = [k_.v if isinstance(k_, _HK) else k_ for k_ in a]          # a mapping iterates its keys
         if name in ('min', 'max') and len(args) == 1 and isinstance(a, (list, tuple)) and all(isinstance(x, Poly) and x.real_const() is not None for x in a) and a:
             return Poly.const((min if name == 'min' else max)(x.real_const() for x in a))
+        if name == 'isinstance' and len(args) == 2 and isinstance(a, Rec) and isinstance(a.clsref, tuple):
+            # an object of a package class: decided along the class hierarchy (a base outside the package leaves it open)
+            kinds = args[1] if isinstance(args[1], tuple) else (args[1],)
+            if all(isinstance(k_, Ref) and k_.kind in ('builtin', 'class') for k_ in kinds):
+                mro_ = s.prog.mro(a.clsref[0], a.clsref[1])
+                ext_base = any(s.prog.resolve_expr(mm_, b_) is None or s.prog.resolve_expr(mm_, b_)[0] != 'class' for mm_, cc_ in mro_ for b_ in cc_.bases
+                               if ast.unparse(b_).split('.')[-1] not in ('ABC', 'NamedTuple', 'object', 'Protocol', 'Generic'))
+                if any(k_.kind == 'class' and any(cc_ is k_.node for _, cc_ in mro_) for k_ in kinds): return True
+                if any(k_.kind == 'builtin' and k_.name == 'tuple' for k_ in kinds) and s.namedtuple_items(a) is not None: return True
+                if not ext_base: return False
         if name == 'isinstance' and len(args) == 2:
             kinds = args[1] if isinstance(args[1], tuple) else (args[1],)
             names = [k.name for k in kinds if isinstance(k, Ref) and k.kind == 'builtin']
@@ -2813,6 +2850,19 @@ class Evaluator:
             env[t.id] = val
         elif isinstance(t, (ast.Tuple, ast.List)):
             if isinstance(val, Rec) and s.namedtuple_items(val) is not None: val = s.namedtuple_items(val)
+            stars_ = [i_ for i_, x_ in enumerate(t.elts) if isinstance(x_, ast.Starred)]
+            if len(stars_) == 1 and isinstance(val, (tuple, list)) and len(val) >= len(t.elts) - 1:
+                # a, *rest, z = concrete sequence
+                i_ = stars_[0]; tail_ = len(t.elts) - i_ - 1
+                for x_, v_ in zip(t.elts[:i_], val[:i_]): s.assign(x_, v_, env, mod, depth)
+                s.assign(t.elts[i_].value, list(val[i_:len(val) - tail_]), env, mod, depth)
+                for x_, v_ in zip(t.elts[i_ + 1:], val[len(val) - tail_:]): s.assign(x_, v_, env, mod, depth)
+                return
+            if stars_:
+                for x_ in t.elts:
+                    for n_ in ast.walk(x_):
+                        if isinstance(n_, ast.Name): env[n_.id] = Opq('?', 'starred unpacking of ' + repr(val)[:40])
+                return
             if isinstance(val, Cond):
                 for i, x in enumerate(t.elts):
                     s.assign(x, s.getitem(val, Poly.const(i)), env, mod, depth)
